@@ -1,3 +1,5 @@
+import ZCV.Model.LogTemplate
+import ZCV.Model.Resources2
 import ZCV.Model.Validator
 import ZCV.SExp
 import ZCV.Model.Subst
@@ -89,6 +91,28 @@ def decPt : SExp → Option Res.Pt
 def encResEv : Res.Ev → SExp
   | .sopen r => .list [.atom "sopen", ofNat r] | .sclose r => .list [.atom "sclose", ofNat r]
   | .ropen r => .list [.atom "ropen", ofNat r] | .rclose r => .list [.atom "rclose", ofNat r]
+
+def decCStep : SExp → Option Res2.CStep
+  | .atom "work" => some .work
+  | .list [.atom "incl", r] => (getNat? r).map .incl
+  | .list [.atom "imp", c] => (getNat? c).map .imp
+  | _ => none
+def decSStep : SExp → Option Res2.SStep
+  | .atom "work" => some .work
+  | .list [.atom "importsrc", r] => (getNat? r).map .importSrc
+  | .list [.atom "importpkg", c] => (getNat? c).map .importPkg
+  | _ => none
+def decDoc : SExp → Option (Nat × Res2.Doc)
+  | .list [id, .list [.atom "cfg", .list ls]] => do pure (← getNat? id, .cfg (← ls.mapM decCStep))
+  | .list [id, .list [.atom "schema", .list bs, .list body]] => do pure (← getNat? id, .schema (← bs.mapM getNat?) (← body.mapM decSStep))
+  | .list [id, .list [.atom "comp", .list body]] => do pure (← getNat? id, .comp (← body.mapM decSStep))
+  | _ => none
+def decEntry : SExp → Option Res2.Entry
+  | .list [.atom "cfgurl", r] => (getNat? r).map .cfgURL
+  | .list [.atom "cfgfile", r] => (getNat? r).map .cfgFile
+  | .list [.atom "schemaurl", r] => (getNat? r).map .schemaURL
+  | .list [.atom "schemafile", r] => (getNat? r).map .schemaFile
+  | _ => none
 
 structure DState where
   defs : List SExp := []
@@ -257,6 +281,18 @@ def handle (st : DState) : SExp → DState × SExp
           | .exit stt ms => .list [.atom "exit", ofNat stt, .list (ms.map .str)]
           | .escaped e ms => .list [.atom "escaped", .str e, .list (ms.map .str)])
       | none => .list [.atom "bad-request", .atom "validator"])
+  -- (res2run (faults…) (docs…) entry limit (active…) (comps…) (cache…)) → (ok? wb? (active…) (comps…) (cache…) (io events…))
+  | .list [.atom "res2run", .list fs, .list docs, entry, limit, .list act, .list comps, .list cache] =>
+    (st, match fs.mapM decPt, docs.mapM decDoc, decEntry entry, getNat? limit, act.mapM getNat?, comps.mapM getNat?, cache.mapM getNat? with
+      | some pts, some ds, some e, some lim, some a, some c, some k =>
+        let r := Res2.run pts { docs := ds, entry := e, limit := lim } { active := a, comps := c, cache := k }
+        .list [ofBool r.ok, ofBool (Res2.wb r.evs []), .list (r.st.active.map ofNat), .list (r.st.comps.map ofNat), .list (r.st.cache.map ofNat),
+               .list ((Res2.ioTrace r.evs).map encResEv)]
+      | _, _, _, _, _, _, _ => .list [.atom "bad-request", .atom "res2run"])
+  -- (logtpl "configured format text") → (acceptsTemplate acceptsSafeTemplate) of the text rewritten by ctrl_char_insert : t|f t|f
+  | .list [.atom "logtpl", .str raw] =>
+    (st, .list [ofBool (LogTemplate.acceptsTemplate (LogFormat.ctrlCharInsert raw)),
+                ofBool (LogTemplate.acceptsSafeTemplate (LogFormat.ctrlCharInsert raw))])
   | .list [.atom "ping"] => (st, .atom "pong")
   | _ => (st, .list [.atom "bad-request"])
 
